@@ -2299,4 +2299,364 @@ theorem neqprefix_sat (a : Asg) (s : ISeq) (c t : ℤ) :
     obtain ⟨T, hT, rfl⟩ := List.mem_map.mp hcl
     exact (key T hT).mpr (h T hT)
 
+
+/-! # Fifth batch: substitution / distribution (`apply_substitution`, C05)
+
+`gad : ℤ → ℤ → CSeq` (`gad(sid, lit)`) is an ARBITRARY function: every theorem below is universally
+quantified over it, exactly as z3 treats the uninterpreted `gad`.  `CTab = Array Int CSeq := ℤ → CSeq`.
+The z3 Skolem functions `dbad`, `lwit`, `lmax`, `lzero` are defined by `Classical.choose` from the
+proved existence statements (default 0 when no witness exists), so each schema is proved in exactly
+the z3 shape "hypothesis → property of the Skolem term". -/
+
+section Substitution
+
+/-- cartesian product in the order of `itertools.product(*Ds)` (first component varies slowest) -/
+def cart {L : Type} : List (List (List L)) → List (List (List L))
+  | [] => [[]]
+  | D :: Ds => D.flatMap (fun c => (cart Ds).map (fun r => c :: r))
+
+/-- `[tuple(lit for c in ct for lit in c) for ct in itertools.product(*gs)]` -/
+def dist (gs : List CSeq) : CSeq := (cart gs).map List.flatten
+
+variable (gad : ℤ → ℤ → CSeq)
+
+/-- distribution over `[gad(sid, l) for l in c]` -/
+def cdist (sid : ℤ) (c : ISeq) : CSeq := dist (c.map (gad sid))
+/-- distribution over `[T[l] for l in c]`, python indexing into a table of length `L` -/
+def cdist_tab (T : ℤ → CSeq) (L : ℤ) (c : ISeq) : CSeq :=
+  dist (c.map (fun l => T (if l ≥ 0 then l else L + l)))
+/-- `cdist` of the first `t` clauses, concatenated -/
+def cdistall (sid : ℤ) (C : CSeq) (t : ℤ) : CSeq := ((C.take t.toNat).map (cdist gad sid)).flatten
+/-- some literal `l` of the clause has `sat(a, gad(sid, l))` -/
+def cind (a : Asg) (sid : ℤ) (c : ISeq) : Prop := ∃ l ∈ c, sat a (gad sid l)
+/-- `cind` for each of the first `t` clauses -/
+def satind (a : Asg) (sid : ℤ) (C : CSeq) (t : ℤ) : Prop := ∀ c ∈ C.take t.toNat, cind gad a sid c
+/-- induced assignment: variable `v` is true iff `gad(sid, v)` holds under `a` -/
+noncomputable def aind (a : Asg) (sid : ℤ) : Asg :=
+  fun v => @decide (sat a (gad sid (v : ℤ))) (Classical.propDecidable _)
+
+/-- `satind` by positions, as in the informal definition (`∀ i < t, cind C[i]`) -/
+theorem satind_iff_index (a : Asg) (sid : ℤ) (C : CSeq) (t : ℤ) (h : 0 ≤ t ∧ t ≤ clen C) :
+    satind gad a sid C t ↔ ∀ i : ℤ, (0 ≤ i ∧ i < t) → cind gad a sid (cget C i) := by
+  unfold clen at h
+  unfold satind
+  constructor
+  · rintro hs i ⟨hi0, hi1⟩
+    apply hs
+    have hlt : i.toNat < C.length := by omega
+    unfold cget
+    rw [List.getD_eq_getElem?_getD, List.getElem?_eq_getElem hlt]
+    exact List.mem_take_iff_getElem.mpr ⟨i.toNat, by simp; omega, rfl⟩
+  · intro hs c hc
+    obtain ⟨n, hn, rfl⟩ := List.mem_take_iff_getElem.mp hc
+    have hn' : n < t.toNat ∧ n < C.length := by simpa using hn
+    have := hs (n : ℤ) ⟨by omega, by omega⟩
+    unfold cget at this
+    rw [Int.toNat_natCast, List.getD_eq_getElem?_getD, List.getElem?_eq_getElem hn'.2] at this
+    exact this
+
+theorem ctrue_append (a : Asg) (x y : ISeq) : ctrue a (x ++ y) ↔ ctrue a x ∨ ctrue a y := by
+  unfold ctrue
+  constructor
+  · rintro ⟨l, hl, h⟩
+    rcases List.mem_append.mp hl with h1 | h1
+    · exact Or.inl ⟨l, h1, h⟩
+    · exact Or.inr ⟨l, h1, h⟩
+  · rintro (⟨l, hl, h⟩ | ⟨l, hl, h⟩)
+    · exact ⟨l, List.mem_append.mpr (Or.inl hl), h⟩
+    · exact ⟨l, List.mem_append.mpr (Or.inr hl), h⟩
+
+/-- L8 DIST (design_probes/Dist.lean `dist_main` on `sat`/`ctrue`) -/
+theorem sat_dist (a : Asg) (Ds : List CSeq) : sat a (dist Ds) ↔ ∃ D ∈ Ds, sat a D := by
+  unfold dist
+  induction Ds with
+  | nil => simp [cart, sat, ctrue]
+  | cons D Ds ih =>
+    have key : sat a ((cart (D :: Ds)).map List.flatten) ↔
+        (sat a D ∨ sat a ((cart Ds).map List.flatten)) := by
+      unfold sat
+      simp only [cart, List.mem_map, List.mem_flatMap]
+      constructor
+      · intro h
+        by_contra hno
+        push Not at hno
+        obtain ⟨⟨c, hc, hcf⟩, ⟨x, ⟨r, hr, rfl⟩, hrf⟩⟩ := hno
+        have := h (c ++ r.flatten) ⟨c :: r, ⟨c, hc, r, hr, rfl⟩, by simp⟩
+        rw [ctrue_append] at this
+        rcases this with h1 | h1
+        · exact hcf h1
+        · exact hrf h1
+      · rintro (h | h) x ⟨cr, ⟨c, hc, r, hr, rfl⟩, rfl⟩
+        · simp only [List.flatten_cons]; rw [ctrue_append]; exact Or.inl (h c hc)
+        · simp only [List.flatten_cons]; rw [ctrue_append]
+          exact Or.inr (h r.flatten ⟨r, hr, rfl⟩)
+    rw [key, ih]
+    constructor
+    · rintro (h | ⟨D', hD', h⟩)
+      · exact ⟨D, List.mem_cons_self, h⟩
+      · exact ⟨D', List.mem_cons_of_mem _ hD', h⟩
+    · rintro ⟨D', hD', h⟩
+      rcases List.mem_cons.mp hD' with rfl | h'
+      · exact Or.inl h
+      · exact Or.inr ⟨D', h', h⟩
+
+/-- every literal of a distributed clause comes from a clause of one of the factors -/
+theorem dist_lit_source (Ds : List CSeq) : ∀ d ∈ dist Ds, ∀ x ∈ d, ∃ D ∈ Ds, ∃ cl ∈ D, x ∈ cl := by
+  unfold dist
+  induction Ds with
+  | nil => intro d hd x hx; simp [cart] at hd; subst hd; cases hx
+  | cons D Ds ih =>
+    intro d hd x hx
+    simp only [cart, List.mem_map, List.mem_flatMap] at hd
+    obtain ⟨cr, ⟨c, hc, r, hr, rfl⟩, rfl⟩ := hd
+    simp only [List.flatten_cons, List.mem_append] at hx
+    rcases hx with hx | hx
+    · exact ⟨D, List.mem_cons_self, c, hc, hx⟩
+    · obtain ⟨D', hD', cl, hcl, hxcl⟩ := ih r.flatten (List.mem_map.mpr ⟨r, hr, rfl⟩) x hx
+      exact ⟨D', List.mem_cons_of_mem _ hD', cl, hcl, hxcl⟩
+
+/-! ### schema 2: `cdistall_zero`, `cdistall_succ` -/
+
+/-- `t == 0 -> cdistall(sid, C, t) == cnil` -/
+theorem cdistall_zero (sid : ℤ) (C : CSeq) (t : ℤ) : t = 0 → cdistall gad sid C t = cnil := by
+  rintro rfl; simp [cdistall, cnil]
+
+/-- `And(0 <= t, t < clen(C)) -> cdistall(sid, C, t + 1) == capp(cdistall(sid, C, t), cdist(sid, cget(C, t)))` -/
+theorem cdistall_succ (sid : ℤ) (C : CSeq) (t : ℤ) : (0 ≤ t ∧ t < clen C) →
+    cdistall gad sid C (t + 1) = capp (cdistall gad sid C t) (cdist gad sid (cget C t)) := by
+  rintro ⟨h0, h1⟩
+  unfold clen at h1
+  have hlt : t.toNat < C.length := by omega
+  have hk : (t + 1).toNat = t.toNat + 1 := by omega
+  unfold cdistall capp cget
+  rw [hk, List.take_add_one, List.getElem?_eq_getElem hlt, List.map_append, List.flatten_append,
+    List.getD_eq_getElem?_getD, List.getElem?_eq_getElem hlt]
+  simp
+
+/-! ### schema 3 (L8) and 4 (L9) -/
+
+/-- L8: `sat(a, cdist(sid, c)) == cind(a, sid, c)` -/
+theorem sat_cdist (a : Asg) (sid : ℤ) (c : ISeq) : sat a (cdist gad sid c) ↔ cind gad a sid c := by
+  unfold cdist cind
+  rw [sat_dist]
+  constructor
+  · rintro ⟨D, hD, h⟩
+    obtain ⟨l, hl, rfl⟩ := List.mem_map.mp hD
+    exact ⟨l, hl, h⟩
+  · rintro ⟨l, hl, h⟩
+    exact ⟨gad sid l, List.mem_map.mpr ⟨l, hl, rfl⟩, h⟩
+
+/-- L9: `And(0 <= t, t <= clen(C)) -> sat(a, cdistall(sid, C, t)) == satind(a, sid, C, t)`
+    (the guard is not needed with `satind` defined on `C[:t]`) -/
+theorem sat_cdistall (a : Asg) (sid : ℤ) (C : CSeq) (t : ℤ) : (0 ≤ t ∧ t ≤ clen C) →
+    (sat a (cdistall gad sid C t) ↔ satind gad a sid C t) := by
+  intro _
+  unfold satind
+  have : sat a (cdistall gad sid C t) ↔ ∀ c ∈ C.take t.toNat, sat a (cdist gad sid c) := by
+    unfold cdistall sat
+    simp only [List.mem_flatten, List.mem_map]
+    constructor
+    · intro h c hc d hd; exact h d ⟨cdist gad sid c, ⟨c, hc, rfl⟩, hd⟩
+    · rintro h d ⟨_, ⟨c, hc, rfl⟩, hd⟩; exact h c hc d hd
+  rw [this]
+  exact forall_congr' (fun c => imp_congr_right (fun _ => sat_cdist gad a sid c))
+
+/-! ### literals of `C` -/
+
+theorem lit_of_cseq (C : CSeq) (c : ISeq) (hc : c ∈ C) (l : ℤ) (hl : l ∈ c) :
+    zabs l ≤ cmaxabs C ∧ (¬ chaszero C → l ≠ 0) := by
+  constructor
+  · rw [zabs_eq_natAbs]
+    exact le_trans (natAbs_le_maxabs c l hl) (maxabs_le_cmaxabs C c hc)
+  · intro hz h0
+    exact hz ⟨c, hc, show (0:ℤ) ∈ c from h0 ▸ hl⟩
+
+/-- every literal of `cdistall(sid, C, t)` lies in a clause of `gad(sid, l)` for a literal `l` of `C` -/
+theorem cdistall_lit_source (sid : ℤ) (C : CSeq) (t : ℤ) :
+    ∀ d ∈ cdistall gad sid C t, ∀ x ∈ d,
+      ∃ l, zabs l ≤ cmaxabs C ∧ (¬ chaszero C → l ≠ 0) ∧ ∃ cl ∈ gad sid l, x ∈ cl := by
+  intro d hd x hx
+  unfold cdistall at hd
+  simp only [List.mem_flatten, List.mem_map] at hd
+  obtain ⟨_, ⟨c, hc, rfl⟩, hd⟩ := hd
+  unfold cdist at hd
+  obtain ⟨D, hD, cl, hcl, hxcl⟩ := dist_lit_source _ d hd x hx
+  obtain ⟨l, hl, rfl⟩ := List.mem_map.mp hD
+  obtain ⟨h1, h2⟩ := lit_of_cseq C c (List.mem_of_mem_take hc) l hl
+  exact ⟨l, h1, h2, cl, hcl, hxcl⟩
+
+/-! ### schema 1: `cdist_tab` congruence (Skolem position `dbad`) -/
+
+theorem cdist_tab_congr_exists (T : ℤ → CSeq) (L : ℤ) (c : ISeq) (sid : ℤ)
+    (hne : cdist_tab T L c ≠ cdist gad sid c) :
+    ∃ j : ℤ, 0 ≤ j ∧ j < ilen c ∧ (iget c j ≥ 0 → T (iget c j) ≠ gad sid (iget c j)) ∧
+      (iget c j < 0 → T (L + iget c j) ≠ gad sid (iget c j)) := by
+  by_contra hno
+  apply hne
+  unfold cdist_tab cdist
+  congr 1
+  apply List.map_inj_left.mpr
+  intro l hl
+  obtain ⟨n, hn, rfl⟩ := List.getElem_of_mem hl
+  by_contra hdiff
+  apply hno
+  refine ⟨(n : ℤ), by omega, by unfold ilen; omega, ?_, ?_⟩ <;> rw [iget_natCast c n hn]
+  · intro hge heq; rw [if_pos hge] at hdiff; exact hdiff heq
+  · intro hlt heq; rw [if_neg (by omega)] at hdiff; exact hdiff heq
+
+open Classical in
+/-- z3 Skolem function `dbad(T, L, c, sid)` -/
+noncomputable def dbad (T : ℤ → CSeq) (L : ℤ) (c : ISeq) (sid : ℤ) : ℤ :=
+  if h : ∃ j : ℤ, 0 ≤ j ∧ j < ilen c ∧ (iget c j ≥ 0 → T (iget c j) ≠ gad sid (iget c j)) ∧
+      (iget c j < 0 → T (L + iget c j) ≠ gad sid (iget c j))
+  then Classical.choose h else 0
+
+/-- `cdist_tab(T, L, c) != cdist(sid, c) -> And(0 <= j, j < ilen(c), Implies(l >= 0, Select(T, l) != gad(sid, l)),
+    Implies(l < 0, Select(T, L + l) != gad(sid, l)))`, `j = dbad(T, L, c, sid)`, `l = iget(c, j)` -/
+theorem cdist_tab_congr (T : ℤ → CSeq) (L : ℤ) (c : ISeq) (sid : ℤ) :
+    cdist_tab T L c ≠ cdist gad sid c →
+    (0 ≤ dbad gad T L c sid ∧ dbad gad T L c sid < ilen c ∧
+     (iget c (dbad gad T L c sid) ≥ 0 →
+        T (iget c (dbad gad T L c sid)) ≠ gad sid (iget c (dbad gad T L c sid))) ∧
+     (iget c (dbad gad T L c sid) < 0 →
+        T (L + iget c (dbad gad T L c sid)) ≠ gad sid (iget c (dbad gad T L c sid)))) := by
+  intro hne
+  have h := cdist_tab_congr_exists gad T L c sid hne
+  unfold dbad
+  rw [dif_pos h]
+  exact Classical.choose_spec h
+
+/-! ### schema 5: `satind_eq_sat` (Skolem literal `lwit`) -/
+
+theorem satind_eq_sat_exists (a : Asg) (sid : ℤ) (b : Asg) (C : CSeq) (t : ℤ)
+    (ht : t = clen C) (hz : ¬ chaszero C) (hne : ¬ (satind gad a sid C t ↔ sat b C)) :
+    ∃ l : ℤ, l ≠ 0 ∧ zabs l ≤ cmaxabs C ∧ ¬ (sat a (gad sid l) ↔ lit_true b l) := by
+  by_contra hno
+  push Not at hno
+  apply hne
+  subst ht
+  unfold satind sat clen
+  rw [Int.toNat_natCast, List.take_length]
+  apply forall_congr'
+  intro c
+  apply imp_congr_right
+  intro hc
+  unfold cind ctrue
+  apply exists_congr
+  intro l
+  apply and_congr_right
+  intro hl
+  obtain ⟨h1, h2⟩ := lit_of_cseq C c hc l hl
+  exact hno l (h2 hz) h1
+
+open Classical in
+/-- z3 Skolem function `lwit(a, sid, b, C)` -/
+noncomputable def lwit (a : Asg) (sid : ℤ) (b : Asg) (C : CSeq) : ℤ :=
+  if h : ∃ l : ℤ, l ≠ 0 ∧ zabs l ≤ cmaxabs C ∧ ¬ (sat a (gad sid l) ↔ lit_true b l)
+  then Classical.choose h else 0
+
+/-- `And(t == clen(C), Not(chaszero(C)), satind(a, sid, C, t) != sat(b, C)) ->
+    And(l != 0, zabs(l) <= cmaxabs(C), sat(a, gad(sid, l)) != lit_true(b, l))`, `l = lwit(a, sid, b, C)` -/
+theorem satind_eq_sat (a : Asg) (sid : ℤ) (b : Asg) (C : CSeq) (t : ℤ) :
+    (t = clen C ∧ ¬ chaszero C ∧ ¬ (satind gad a sid C t ↔ sat b C)) →
+    (lwit gad a sid b C ≠ 0 ∧ zabs (lwit gad a sid b C) ≤ cmaxabs C ∧
+     ¬ (sat a (gad sid (lwit gad a sid b C)) ↔ lit_true b (lwit gad a sid b C))) := by
+  rintro ⟨ht, hz, hne⟩
+  have h := satind_eq_sat_exists gad a sid b C t ht hz hne
+  unfold lwit
+  rw [dif_pos h]
+  exact Classical.choose_spec h
+
+/-! ### schema 6: `cmaxabs` of the distribution (Skolem literal `lmax`) -/
+
+theorem cmaxabs_attained (C : CSeq) (h : cmaxabs C ≠ 0) : ∃ s ∈ C, cmaxabs C = maxabs s := by
+  induction C with
+  | nil => exact absurd rfl h
+  | cons y t ih =>
+    rw [cmaxabs_cons] at h ⊢
+    by_cases hle : cmaxabs t ≤ maxabs y
+    · exact ⟨y, List.mem_cons_self, by omega⟩
+    · have ht : cmaxabs t ≠ 0 := by have := maxabs_nonneg' y; omega
+      obtain ⟨s, hs, hse⟩ := ih ht
+      exact ⟨s, List.mem_cons_of_mem _ hs, by omega⟩
+
+theorem cmaxabs_cdistall_exists (sid : ℤ) (C : CSeq) (t : ℤ) :
+    cmaxabs (cdistall gad sid C t) = 0 ∨
+    ∃ l : ℤ, zabs l ≤ cmaxabs C ∧ (¬ chaszero C → l ≠ 0) ∧
+      cmaxabs (cdistall gad sid C t) ≤ cmaxabs (gad sid l) := by
+  by_cases h0 : cmaxabs (cdistall gad sid C t) = 0
+  · exact Or.inl h0
+  · right
+    obtain ⟨d, hd, hde⟩ := cmaxabs_attained _ h0
+    have hdne : d ≠ [] := by
+      rintro rfl
+      rw [hde] at h0; exact h0 rfl
+    obtain ⟨x, hx, hxe⟩ := maxabs_attained d hdne
+    obtain ⟨l, h1, h2, cl, hcl, hxcl⟩ := cdistall_lit_source gad sid C t d hd x hx
+    refine ⟨l, h1, h2, ?_⟩
+    rw [hde, hxe]
+    exact le_trans (abs_le_maxabs cl x hxcl) (maxabs_le_cmaxabs _ cl hcl)
+
+open Classical in
+/-- z3 Skolem function `lmax(sid, C, t)` -/
+noncomputable def lmax (sid : ℤ) (C : CSeq) (t : ℤ) : ℤ :=
+  if h : ∃ l : ℤ, zabs l ≤ cmaxabs C ∧ (¬ chaszero C → l ≠ 0) ∧
+      cmaxabs (cdistall gad sid C t) ≤ cmaxabs (gad sid l)
+  then Classical.choose h else 0
+
+/-- `And(0 <= t, t <= clen(C)) -> Or(cmaxabs(D) == 0, And(zabs(lm) <= cmaxabs(C),
+    Implies(Not(chaszero(C)), lm != 0), cmaxabs(D) <= cmaxabs(gad(sid, lm))))`,
+    `D = cdistall(sid, C, t)`, `lm = lmax(sid, C, t)` (the guard is not needed) -/
+theorem cmaxabs_cdistall (sid : ℤ) (C : CSeq) (t : ℤ) : (0 ≤ t ∧ t ≤ clen C) →
+    (cmaxabs (cdistall gad sid C t) = 0 ∨
+     (zabs (lmax gad sid C t) ≤ cmaxabs C ∧ (¬ chaszero C → lmax gad sid C t ≠ 0) ∧
+      cmaxabs (cdistall gad sid C t) ≤ cmaxabs (gad sid (lmax gad sid C t)))) := by
+  intro _
+  rcases cmaxabs_cdistall_exists gad sid C t with h | h
+  · exact Or.inl h
+  · right
+    unfold lmax
+    rw [dif_pos h]
+    exact Classical.choose_spec h
+
+/-! ### schema 7: zero literals of the distribution (Skolem literal `lzero`) -/
+
+theorem chaszero_cdistall_exists (sid : ℤ) (C : CSeq) (t : ℤ)
+    (hz : chaszero (cdistall gad sid C t)) :
+    ∃ l : ℤ, zabs l ≤ cmaxabs C ∧ (¬ chaszero C → l ≠ 0) ∧ chaszero (gad sid l) := by
+  obtain ⟨d, hd, h0⟩ := hz
+  obtain ⟨l, h1, h2, cl, hcl, hxcl⟩ := cdistall_lit_source gad sid C t d hd 0 h0
+  exact ⟨l, h1, h2, cl, hcl, hxcl⟩
+
+open Classical in
+/-- z3 Skolem function `lzero(sid, C, t)` -/
+noncomputable def lzero (sid : ℤ) (C : CSeq) (_t : ℤ) : ℤ :=
+  if h : ∃ l : ℤ, zabs l ≤ cmaxabs C ∧ (¬ chaszero C → l ≠ 0) ∧ chaszero (gad sid l)
+  then Classical.choose h else 0
+
+/-- `And(0 <= t, t <= clen(C), chaszero(D)) -> And(zabs(lz) <= cmaxabs(C), Implies(Not(chaszero(C)), lz != 0),
+    chaszero(gad(sid, lz)))`, `D = cdistall(sid, C, t)`, `lz = lzero(sid, C, t)` -/
+theorem chaszero_cdistall (sid : ℤ) (C : CSeq) (t : ℤ) :
+    (0 ≤ t ∧ t ≤ clen C ∧ chaszero (cdistall gad sid C t)) →
+    (zabs (lzero gad sid C t) ≤ cmaxabs C ∧ (¬ chaszero C → lzero gad sid C t ≠ 0) ∧
+     chaszero (gad sid (lzero gad sid C t))) := by
+  rintro ⟨_, _, hz⟩
+  have h := chaszero_cdistall_exists gad sid C t hz
+  unfold lzero
+  rw [dif_pos h]
+  exact Classical.choose_spec h
+
+/-! ### schema 8: the induced assignment -/
+
+/-- `l > 0 -> lit_true(aind(a, sid), l) == sat(a, gad(sid, l))` -/
+theorem lit_true_aind (a : Asg) (sid : ℤ) (l : ℤ) :
+    l > 0 → (lit_true (aind gad a sid) l ↔ sat a (gad sid l)) := by
+  intro h
+  have hl : ((l.natAbs : ℕ) : ℤ) = l := by omega
+  unfold lit_true litTrue aind
+  rw [if_pos h, hl]
+  simp
+
+end Substitution
+
 end CnfSem
